@@ -662,8 +662,10 @@ def generate_numpy_like(expr: Array | Mapping[str, Array] | DictOfNamedArrays,
         var_name_gen.add_names(expr)
 
     var_name_gen.add_names({target.numpy_like_module_name_shorthand,
-                            "np",
-                            function_name})
+                            "np"})
+    # separately: an entrypoint called like one of the module aliases would
+    # shadow it, and a set would silently merge the two
+    var_name_gen.add_name(function_name)
 
     cgen_mapper = NumpyCodegenMapper(
         numpy_backend=target.numpy_like_module_name_shorthand,
